@@ -83,7 +83,8 @@ def gen(seed, tier):
                                           'rename', 'rename+enospc')),
                         r.randrange(4)])
         elif x < 0.92:
-            ops.append(['undo', -1 - r.randrange(3)])
+            ops.append(['undo', -1 - r.randrange(3),
+                        r.choice((1, 1, 1, 2, 3))])
         elif x < 0.96:
             ops.append(['pack', r.choice(('before_last', 'after_all',
                                           'middle'))])
@@ -99,6 +100,22 @@ def gen(seed, tier):
             block += [['undo', -1]]
         block += [['write', k, r.choice(('w', 'a'))], ['commit'],
                   ['pack', r.choice(('after_all', 'before_last'))]]
+        at = r.randrange(len(ops) + 1)
+        ops[at:at] = block
+    if r.random() < 0.15:
+        # several revisions of one blob undone in ONE undo transaction
+        # (DB.undoMultiple): it stores the blob more than once, the last
+        # store is the revision's content
+        k = r.randrange(3)
+        m = r.choice((2, 2, 3))
+        block = []
+        for _ in range(m + 1):
+            block += [['write', k, r.choice(('w', 'w', 'a'))], ['commit']]
+        block += [['undo', -1, m]]
+        if r.random() < 0.5:
+            block += [['undo', -1, 1]]
+        if r.random() < 0.3:
+            block += [['pack', 'after_all']]
         at = r.randrange(len(ops) + 1)
         ops[at:at] = block
     ops += [['commit'], ['readB']]
@@ -458,7 +475,7 @@ class M:
         self.trace.append('fail:' + how)
         self.after_step('after failed commit (%s)' % how, True)
 
-    def op_undo(self, k):
+    def op_undo(self, k, m=1):
         if self.kind != 'file' or len(self.commit_log) < 2:
             return
         A = self.A
@@ -467,13 +484,17 @@ class M:
         cand = self.commit_log[2:]      # not the root / the plain object
         if not cand:
             return
-        tid = cand[k % len(cand)]
-        t = self.log.txn(tid)
-        if t is None:
+        i = k % len(cand)
+        tids = [cand[j] for j in range(i, max(i - m, -1), -1)]
+        if any(self.log.txn(tid) is None for tid in tids):
             return
         A.begin()
         try:
-            self.db.undo(undo_id(tid), A.tm.get())
+            if len(tids) == 1:
+                self.db.undo(undo_id(tids[0]), A.tm.get())
+            else:
+                self.db.undoMultiple([undo_id(tid) for tid in tids],
+                                     A.tm.get())
             A.commit()
         except UndoError:
             A.abort()
@@ -666,7 +687,7 @@ def run(case):
             elif k == 'fail':
                 m.op_fail(op[1], op[2])
             elif k == 'undo':
-                m.op_undo(op[1])
+                m.op_undo(*op[1:])
             elif k == 'pack':
                 m.op_pack(op[1])
             elif k == 'sp':
